@@ -61,24 +61,39 @@ def configs(tier):
     """condition tuples without the perm range: (mode, holder, P, n, fam, omax, dmax, umax) — see C20_template"""
     out = []
     if tier == 'quick':
-        for mode in ('ret', 'raise', 'cancel', 'online'):
+        for mode in ('ret', 'raise', 'cancel'):
             out.append((mode, True, 1, 3, 'S', 1, 1, 1))
             out.append((mode, True, 2, 3, 'S', 2, 1, 1))
         for mode in ('ret', 'raise', 'cancel'):
             out.append((mode, False, 1, 3, 'S', 1, 1, 1))
         for mode in ('raise', 'cancel', 'online'):
             out.append((mode, True, 2, 3, 'C', 1, -1, 1))
+        # OnlineBoundedGather2 driven by a symbolic program of 4 steps after the first call
+        out.append(('online', True, 2, 3, 'O4', 1, -1, 1))
         return out
     for mode in ('ret', 'raise', 'cancel', 'online'):
         for P in (1, 2):
-            out.append((mode, True, P, 3, 'S', 2, 2, 2))
+            if mode != 'online':
+                out.append((mode, True, P, 3, 'S', 2, 2, 2))
             out.append((mode, True, P, 3, 'C', 2 if P == 2 else 1, -1, 2))
     for mode in ('ret', 'raise', 'cancel'):
         for P in (1, 2):
             out.append((mode, False, P, 3, 'S', 2, 1, 2))
             out.append((mode, False, P, 3, 'C', 1, -1, 2))
-    for mode in ('raise', 'cancel', 'online'):
+    for mode in ('raise', 'cancel'):
         out.append((mode, True, 2, 4, 'S', 1, 1, 1))
+    for P in (1, 2, 3):
+        out.append(('online', True, P, 3, 'O4c', 2, -2, 2))     # with Task.cancel() steps and own CancelledError
+    out.append(('online', True, 2, 3, 'O5', 2, -1, 1))
+    return out
+
+
+def first_steps(n, fam, omax):
+    """valid codes for the first symbolic step of an online program (one shard each)"""
+    out = [0, 1, 2, 3] + [4 + o for o in range(omax + 1)]
+    if fam.endswith('c'):
+        out.append(4 + 3 * n)
+    out.append(4 + 4 * n)
     return out
 
 
@@ -136,6 +151,10 @@ def run(R):
     # shards: full condition tuples (mode, holder, P, n, lo, hi, fam, omax, dmax, umax)
     shards = []
     for mode, holder, P, n, fam, omax, dmax, umax in cfgs:
+        if fam.startswith('O'):
+            for a0 in first_steps(n, fam, omax):
+                shards.append((mode, holder, P, n, a0, a0 + 1, fam, omax, dmax, umax))
+            continue
         nperm = math.factorial(n)
         step = (2 if quick else 1) if n == 3 else 1
         for lo in range(0, nperm, step):
@@ -156,7 +175,8 @@ def run(R):
     twin_of = {}
     for s in shards:
         mode, holder, P, n, lo, hi, fam, omax, dmax, umax = s
-        twin_of[s] = (mode, holder, P, n, 0, math.factorial(n), fam, omax, dmax, umax)
+        twin_of[s] = ((mode, holder, P, n, -1, 0, fam, omax, dmax, umax) if fam.startswith('O')
+                      else (mode, holder, P, n, 0, math.factorial(n), fam, omax, dmax, umax))
 
     def run_twin(t):
         gm = chrun.gen_module(f'C20_{R.tier}_{T.twin_name(t)}', T.source([], [t]))
@@ -181,12 +201,19 @@ def run(R):
                 args = chrun.parse_counterexample(msg, T.argnames(s))
                 if args is None:
                     raise HarnessError(f'cannot parse CrossHair counterexample: {msg}')
-                rep = {'mode': mode, 'holder': holder, 'P': P, 'n': n, 'perm': args['perm'],
-                       'outs': [args[f'o{i}'] for i in range(n)],
-                       'drains': [args[f'd{i}'] for i in range(n - 1)] if dmax >= 0 else [1] * (n - 1),
-                       'vals': [args[f'v{i}'] for i in range(n)],
-                       'cpoint': args['cp'] if fam == 'C' else H.NEVER, 'cdrain': args['cd'] if fam == 'C' else 0,
-                       'unwind': args['uw']}
+                if fam.startswith('O'):
+                    k = int(fam[1:].rstrip('c'))
+                    rep = {'family': 'O', 'mode': mode, 'holder': holder, 'P': P, 'n': n,
+                           'steps': [lo] + [args[f'a{j}'] for j in range(1, k)],
+                           'drains': [args['dm']] * k if dmax < 0 else [args[f'd{j}'] for j in range(k)],
+                           'vals': [args[f'v{i}'] for i in range(n)], 'unwind': args['uw']}
+                else:
+                    rep = {'mode': mode, 'holder': holder, 'P': P, 'n': n, 'perm': args['perm'],
+                           'outs': [args[f'o{i}'] for i in range(n)],
+                           'drains': [args[f'd{i}'] for i in range(n - 1)] if dmax >= 0 else [1] * (n - 1),
+                           'vals': [args[f'v{i}'] for i in range(n)],
+                           'cpoint': args['cp'] if fam == 'C' else H.NEVER, 'cdrain': args['cd'] if fam == 'C' else 0,
+                           'unwind': args['uw']}
                 mask, info = _run(H, rep)
                 new = mask & ~m
                 if not new:
@@ -194,12 +221,17 @@ def run(R):
                 for bit in H.all_bits():
                     if new & bit and (finding_class(H, bit, mode, holder), key(s)) not in reported:
                         cls = finding_class(H, bit, mode, holder)
-                        cp = rep['cpoint']
-                        what = (f'{mode} caller_holds_permit={holder} P={P} N={n} resolve order '
-                                f'{list(H.decode_perm(n, rep["perm"]))} outcomes {rep["outs"]} (0 value, 1 exception, 2 '
-                                f'own CancelledError) drains {rep["drains"]} '
-                                + (f'caller cancelled before resolution #{cp} then drain {rep["cdrain"]} ' if cp != H.NEVER
-                                   else '') + f'worker unwind turns {rep["unwind"]}: {info}')
+                        if fam.startswith('O'):
+                            what = (f'OnlineBoundedGather2 P={P} N={n} program {H.describe_program(n, rep["steps"])} '
+                                    f'drain after each step {rep["drains"]} (0 none, 1 quiescent, 2 one tick) worker '
+                                    f'unwind turns {rep["unwind"]}: {info}')
+                        else:
+                            cp = rep['cpoint']
+                            what = (f'{mode} caller_holds_permit={holder} P={P} N={n} resolve order '
+                                    f'{list(H.decode_perm(n, rep["perm"]))} outcomes {rep["outs"]} (0 value, 1 exception, '
+                                    f'2 own CancelledError) drains {rep["drains"]} '
+                                    + (f'caller cancelled before resolution #{cp} then drain {rep["cdrain"]} '
+                                       if cp != H.NEVER else '') + f'worker unwind turns {rep["unwind"]}: {info}')
                         st = R.finding(cls, what, dict(rep, aspect=bit))
                         reported.add((cls, key(s)))
                         R.ob(f'{cls}: caller_holds_permit={holder}, P={P}, N={n}', st, dt,
@@ -223,7 +255,12 @@ def run(R):
     for s in shards:
         mode, holder, P, n, lo, hi, fam, omax, dmax, umax = s
         famtxt = 'no outer cancel' if fam == 'S' else 'caller cancelled at a symbolic point'
-        name = (f'{mode}, caller_holds_permit={holder}, P={P}, N={n}, {famtxt}, outcomes 0..{omax}, resolve orders '
+        if fam.startswith('O'):
+            kk = int(fam[1:].rstrip('c'))
+            name0 = (f'online program, P={P}, N={n}, call(w0) then {kk} symbolic steps starting with '
+                     f'"{H.describe_program(n, [lo])[1] if lo != 4 + 4 * n else "end"}"'
+                     f'{" (incl. Task.cancel steps)" if fam.endswith("c") else ""}, outcomes 0..{omax}: all aspects')
+        name = name0 + (f' except {H.names(settled[s][1])}' if s in settled and settled[s][1] else '') if fam.startswith('O') else (f'{mode}, caller_holds_permit={holder}, P={P}, N={n}, {famtxt}, outcomes 0..{omax}, resolve orders '
                 f'{lo}..{hi - 1}: all aspects'
                 + (f' except {H.names(settled[s][1])}' if s in settled and settled[s][1] else ''))
         reach = twin_res.get(s) == 'refuted'
@@ -238,6 +275,8 @@ def run(R):
 
 
 def _run(H, d):
+    if d.get('family') == 'O':
+        return H.run_program(d['P'], d['n'], d['steps'], d['drains'], d['vals'], d.get('unwind', 0))
     return H.run_schedule(d['mode'], d['holder'], d['P'], d['n'], d['perm'], d['outs'], d['drains'], d['vals'],
                           d.get('cpoint', H.NEVER), d.get('cdrain', 0), d.get('unwind', 0))
 
